@@ -190,11 +190,40 @@ impl C16 {
     fn linear_exactness(&self, ctx: &mut Ctx, r: &[u8], q: &[u8], sc: &Sc) {
         // the property quantifies over match function and per-base gap penalty only: clip penalties stay at
         // their default (MIN_SCORE); global_banded does not override them as global() does
+        let given_clips = sc.clips;
         let sc = &Sc { clips: [MIN_SCORE; 4], tbl: sc.tbl, ..*sc };
         let desc = |w: String| Obj::new().b("reference", r).b("query", q).d("scoring", sc).s("what", &w).done();
         let exp = nw(r, q, sc);
+        // global() itself documents that it ignores clip penalties: a scoring that carries finite ones must give the same result
+        if given_clips != [MIN_SCORE; 4] {
+            let with_clips = Sc { clips: given_clips, tbl: sc.tbl, ..*sc };
+            let r2 = guard(|| {
+                let mut a = Aligner::new(with_clips.scoring(), r);
+                let al = a.global(q).alignment();
+                (al.score, al.verif_operations().to_vec())
+            });
+            ctx.eval(1);
+            ctx.count("global_alignments_with_clip_penalties_in_the_scoring", 1);
+            match r2 {
+                Err(p) => ctx.violation(&format!("poa:linear:panic:{}", panic_site(&p)), desc(format!("scoring with clip penalties {:?}: {}", given_clips, p))),
+                Ok((score, ops)) => {
+                    if score != exp {
+                        ctx.violation("poa:linear:global-score-differs-from-needleman-wunsch", desc(format!("scoring carries clip penalties {:?} (global() ignores them): score {} expected {}", given_clips, score, exp)));
+                    } else if walk_linear(&ops, r, q, sc) != Ok(score) {
+                        ctx.violation("poa:linear:invalid-path", desc(format!("scoring carries clip penalties {:?}: {:?}", given_clips, ops)));
+                    }
+                }
+            }
+        }
         let res = guard(|| {
-            let mut a = Aligner::new(sc.scoring(), r);
+            // every second time the scoring is built through the public constructor instead of a struct literal
+            let mut a = if (r.len() + q.len()) % 2 == 0 {
+                let s2 = *sc;
+                Aligner::new(Scoring::new(sc.gap, sc.ext, move |x: u8, y: u8| s2.mf(x, y)), r).global(q).alignment();
+                Aligner::new(sc.scoring(), r)
+            } else {
+                Aligner::new(sc.scoring(), r)
+            };
             let al = a.global(q).alignment();
             // "a bandwidth at least as large as both lengths": exactly max(len), one more, several more
             let w = r.len().max(q.len());
